@@ -24,6 +24,11 @@ def _name():
     return gen.plain_ident(min_len=2, max_len=7)
 
 
+def _kwname():
+    kws = [k for k in gen.GRAMMAR_KEYWORDS if k not in gen.C06_EXCLUDED]
+    return st.tuples(st.sampled_from(kws), st.integers(0, 2)).map(lambda t: [t[0], t[0].lower(), t[0].capitalize()][t[1]])
+
+
 def _lit():
     return gen.safe_literal(max_size=8).filter(lambda s: "=" not in s and "''" not in s)
 
@@ -44,7 +49,7 @@ def _args_strategies():
     S["hql.tblproperties"] = ("hql", "tblprops", st.fixed_dictionaries({
         "props": st.lists(st.tuples(_lit(), _lit()), min_size=1, max_size=3, unique_by=lambda kv: kv[0])}))
     S["hql.partitioned_by"] = ("hql", "partitioned", st.fixed_dictionaries({
-        "cols": st.lists(st.tuples(_name(), st.sampled_from(["string", "int", "date", "STRING", "bigint"])), min_size=1, max_size=3, unique_by=lambda c: c[0].lower())}))
+        "cols": st.lists(st.tuples(st.one_of(_name(), _name(), _kwname()), st.sampled_from(["string", "int", "date", "STRING", "bigint"])), min_size=1, max_size=3, unique_by=lambda c: c[0].lower())}))
     S["hql.clustered_by"] = ("hql", "clustered", st.fixed_dictionaries({"cols": st.integers(1, 2), "n": st.integers(1, 256)}))
     S["hql.comment"] = ("hql", "comment", st.fixed_dictionaries({"text": _lit()}))
     S["hql.skewed_by"] = ("hql", "skewed", st.fixed_dictionaries({"on": st.lists(st.integers(0, 99), min_size=1, max_size=3)}))
@@ -211,7 +216,10 @@ def clause(inst, colnames):
                 toks += ([COMMA] if n else []) + [I(c)]
             return toks, "top", {"cluster_by": cs}
         if not a["paren"]:
-            cs = cs[:1]  # K12: unparenthesised multi-column CLUSTER BY is a known finding
+            safe = [c for c in colnames if c.strip('"`[]').upper() not in gen.RESERVED] or None
+            if safe is None and not a.get("force_kw"):  # K24: keyword-shaped name in an unparenthesised list -> parenthesise
+                return K("CLUSTER", "BY") + plist([[I(c)] for c in cs]), "top", {"cluster_by": cs}
+            cs = [(safe or colnames)[0]]  # K12: unparenthesised multi-column CLUSTER BY is a known finding
             return K("CLUSTER", "BY") + [I(cs[0])], "top", {"cluster_by": cs}
         return K("CLUSTER", "BY") + plist([[I(c)] for c in cs]), "top", {"cluster_by": cs}
     if cid == "postgres.inherits":
@@ -266,7 +274,14 @@ def clause_set(draw, dialect=None, max_clauses=5):
 @st.composite
 def body(draw):
     n = draw(st.integers(1, 5))
-    names = draw(gen.distinct_names(n))
+    if draw(st.integers(0, 2)) == 0:
+        # keyword-shaped / delimited column names (every grammar keyword outside C06's excluded list is a legal column name);
+        # the clauses that take column lists (CLUSTER BY, CLUSTERED BY, SORTKEY, DISTKEY, PARTITION BY, SKEWED BY) name them
+        from . import c06
+
+        names = draw(c06.distinct(n, "col"))
+    else:
+        names = draw(gen.distinct_names(n))
     cols = []
     have_pk = False
     for nm in names:
@@ -354,7 +369,15 @@ class C11(Prop):
         names = [c["name"] for c in b["cols"]]
         expect = []
         if with_clauses:
-            for inst in case["clauses"]:
+            insts = list(case["clauses"])
+            ids = [i["id"] for i in insts]
+            kwnames = any(n.strip('"`[]').upper() in gen.RESERVED for n in names)
+            if kwnames and not case.get("_no_carve") and "postgres.tablespace" in ids and "postgres.partition_by" in ids and \
+                    ids.index("postgres.tablespace") < ids.index("postgres.partition_by"):
+                # K24: a keyword-shaped column name in a column list that follows a TABLESPACE clause loses the table
+                i, j = ids.index("postgres.tablespace"), ids.index("postgres.partition_by")
+                insts[i], insts[j] = insts[j], insts[i]
+            for inst in insts:
                 toks, place, exp = clause(inst, names)
                 tbl["clauses"].append(toks)
                 expect.append((inst["id"], place, exp))
